@@ -50,3 +50,18 @@ Theorem C19_no_failure_value : forall O P fmt st adr cdj ad att u,
   verify_statement O P fmt st adr cdj ad att = Ok u -> u = tt.
 Proof. exact no_false_result. Qed.
 Print Assumptions C19_no_failure_value.
+
+(* ---- the attestation rules: every format verifier answers inside the hierarchy on a structurally
+   well-formed statement (members of the right CBOR type, certificates that load, credential key that decodes,
+   TPM structures / JWS parts that parse) - whatever the reason for the rejection ---- *)
+From PW Require Import Proofs.ExnFormats.
+
+Theorem C19_statement_verifiers : forall O P fmt st adr cdj ad att,
+  statement_wf O P fmt st att -> lib_or_ok (verify_statement O P fmt st adr cdj ad att).
+Proof. exact statement_lob. Qed.
+Print Assumptions C19_statement_verifiers.
+
+(* registration as a whole, with the statement hypothesis of C19_semantic_reg discharged *)
+Theorem C19_semantic_reg_structural : forall O P c, reg_wf' O P c -> lib_or_ok (verify_reg_rec O P c).
+Proof. exact reg_rejections_in_hierarchy'. Qed.
+Print Assumptions C19_semantic_reg_structural.
